@@ -98,7 +98,7 @@ class C18(Prop):
                         "generated_null_patch", "deep_objects"]
 
     def budget(self, tier):
-        return {"workers": 14, "examples": 1000 if tier == "quick" else 20000}
+        return {"workers": 14, "examples": 1500 if tier == "quick" else 20000}
 
     def strategy(self, tier):
         docs = st.one_of(object_documents(), object_documents(), merge_documents())
